@@ -211,6 +211,24 @@ Definition pending (q : list entry) : list (nat * Z) :=
   concat (map (fun e => tag (e_id e) (skipn (e_sent e) (e_data e))) q).
 Definition on_wire (i : nat) (wire : list (nat * Z)) : Prop := exists b, In (i, b) wire.
 
+(* a user element no write has been attempted for *)
+Definition unstarted_user (e : entry) : bool := e_user e && negb (e_wip e).
+
+(* the abstract state reached by a history *)
+Definition abs (sm : bool) (ops : list op) : astate := fst (a_run ops (a_init sm)).
+
+(* what a step adds to the log: (id, owner, text) of the elements it queues *)
+Definition lkey (l : lentry) : nat * owner * list Z := (e_id (l_e l), e_owner (l_e l), e_data (l_e l)).
+Definition submitted (a : astate) (o : op) : list (nat * owner * list Z) :=
+  match o with
+  | OSend ow d =>
+    if a_connected a then
+      (a_next a, ow, d) ::
+      (if negb (is_sm ow) && a_sm_enabled a && negb (a_r_sent a) then [(S (a_next a), OwSmLib, req_ack)] else [])
+    else []
+  | _ => []
+  end.
+
 (* ------------------------------------------------------------------ the linkage invariant *)
 Definition entry_of (i : nat) (n : node) : entry :=
   mkE i (n_owner n) (n_data n) (n_written n) (n_wip n) (n_userdata n) (n_smh n).
